@@ -12,6 +12,7 @@ import GoProbeModel.Spec.C19
 import GoProbeModel.Spec.C15
 import GoProbeModel.Spec.C03
 import GoProbeModel.Spec.C09
+import GoProbeModel.Spec.C24
 
 /-!
 `gpjudge`: executable specs. Reads lines `<Cxx> <case fields…> => <implementation output>` and
@@ -31,5 +32,6 @@ def main : IO Unit := DriverLoop.runJudge [
   ("C19", C19.judge),
   ("C15", C15.judge),
   ("C03", C03.judge),
-  ("C09", C09.judge)
+  ("C09", C09.judge),
+  ("C24", C24.judge)
 ]
